@@ -405,7 +405,9 @@ class Header(Field):
 
         else:
             # old-format length
-            ##TODO: what if _llen needs to be (re)computed?
+            # if the length no longer fits the length type this header was parsed with, widen it
+            if self._llen > 0 and self.int_byte_len(self.length) > self._llen:
+                return 2 if self.length < (1 << 16) else 4
             return self._llen
 
     @llen.register(int)
